@@ -1011,6 +1011,33 @@ fn run_long(out: &mut Out, rng: &mut Rng, work: &str, user: bool, hdr_ahead: boo
 			Err(_) => break,
 		}
 	}
+	// candidate branches rooted at every height the body tail can have after the compaction (the
+	// horizon below the head, pulled back to the archive header): two blocks, the second far
+	// heavier than everything else; the one rooted exactly AT the tail block is delivered last
+	let horizon = if user { 70usize } else { 20usize };
+	let mut tail_forks: BTreeMap<u64, Vec<usize>> = BTreeMap::new();
+	for root_h in n.saturating_sub(horizon + 12)..=n.saturating_sub(horizon) {
+		if root_h == 0 {
+			continue;
+		}
+		let mut t = trunk[root_h];
+		let mut ids = vec![];
+		for d in 0..2 {
+			match kit.new_block(t, if d == 1 { 5000 + root_h as u64 } else { 2 }, &[]) {
+				Ok(id) => {
+					ids.push(id);
+					t = id;
+				}
+				Err(e) => {
+					complain(format!("tail fork at {}: {}", root_h, e));
+					break;
+				}
+			}
+		}
+		if ids.len() == 2 {
+			tail_forks.insert(root_h as u64, ids);
+		}
+	}
 	// five more blocks on the trunk (used by the `hdr` variant only)
 	let mut ahead: Vec<usize> = vec![];
 	if hdr_ahead {
@@ -1133,6 +1160,36 @@ fn run_long(out: &mut Out, rng: &mut Rng, work: &str, user: bool, hdr_ahead: boo
 	}
 	let v2 = subj.c().validate(false);
 	out.line("chain validate s0", &match &v2 { Ok(_) => "ok".to_string(), Err(e) => format!("err:{}", error_class(e)) });
+	// a reorganisation from the deepest block a compacted node can still reorganise from: the
+	// branch rooted exactly at its body tail
+	// (only where the tail IS the compaction horizon, as on mainnet and under UserTesting; under
+	// AutomatedTesting the state-sync threshold equals the horizon, the tail is pulled back to the
+	// archive header below it, and a branch rooted between the two is outside what a compacted
+	// node supports: the data of outputs spent there is gone)
+	let tail_is_horizon = tail_after == (n_trunk as u64).saturating_sub(horizon as u64);
+	if !tail_is_horizon {
+		*stats.entry(format!("long:tail-{}-below-horizon-{}:no-reorg-from-the-tail", tail_after, n_trunk as u64 - horizon as u64)).or_insert(0) += 1;
+	}
+	match tail_forks.get(&tail_after).filter(|_| tail_is_horizon) {
+		Some(ids) => {
+			for i in ids {
+				let r = subj.deliver_block(&kit.blks[*i].block);
+				out.line(&format!("chain deliver s0 b{}", i), &r);
+				let r2 = twin.deliver_block(&kit.blks[*i].block);
+				out.line(&format!("chain deliver t0 b{}", i), &r2);
+				if r != r2 {
+					out.raw(&format!("#ORACLE-FAIL C08 reorg from the body tail (height {}) behaves differently after compaction: b{} {} vs {}", tail_after, i, r, r2));
+				}
+				check_pair(out, &subj, &twin, "reorg-from-the-tail");
+			}
+			let v3 = subj.c().validate(false);
+			out.line("chain validate s0", &match &v3 { Ok(_) => "ok".to_string(), Err(e) => format!("err:{}", error_class(e)) });
+			*stats.entry("long:reorg-from-the-body-tail".into()).or_insert(0) += 1;
+		}
+		None => {
+			*stats.entry(format!("long:no-branch-prepared-at-tail-height-{}", tail_after)).or_insert(0) += 1;
+		}
+	}
 	*stats.entry("long:blocks".into()).or_insert(0) += kit.blks.len() as u64;
 	*stats.entry("long:outputs".into()).or_insert(0) += kit.outs.len() as u64;
 	*stats.entry("long:spent-plain".into()).or_insert(0) += spent_plain.len() as u64;
@@ -2020,6 +2077,36 @@ fn run_c13(out: &mut Out, rng: &mut Rng, work: &str) -> BTreeMap<String, u64> {
 				out.line(&format!("chain obs {}", name), &subj.obs(kit));
 			}
 			if r == "ok:head" {
+				// what the node reports about the kernels of its best chain (looked up in the kernel
+				// data file) is not disturbed by transactions it validated and refused earlier
+				// (get_kernel_height maps positions to heights through the header MMR: only asked
+				// while the header head is the body head)
+				if subj.c().header_head().unwrap().last_block_h == subj.c().head().unwrap().last_block_h {
+					let mut cur = kit.by_hash.get(&subj.c().head().unwrap().last_block_h).cloned();
+					let mut walked = 0;
+					while let Some(b) = cur {
+						if walked >= 12 || b == 0 {
+							break;
+						}
+						let blk = &kit.blks[b].block;
+						for k in blk.kernels().iter().filter(|k| k.is_coinbase()) {
+							let got = subj.c().get_kernel_height(&k.excess, None, None);
+							let ok = match &got {
+								Ok(Some((kk, h, _))) => *h == blk.header.height && kk.excess == k.excess,
+								_ => false,
+							};
+							if !ok {
+								out.raw(&format!(
+									"#ORACLE-FAIL C06 the coinbase kernel of best-chain block b{} (height {}) is looked up as {:?} on subject {} after b{} (transactions were validated and refused in between)",
+									b, blk.header.height, got.as_ref().map(|o| o.as_ref().map(|(_, h, p)| (*h, *p))).map_err(|e| error_class(e)), name, i
+								));
+							}
+						}
+						*g.stats.entry("c13:kernel-lookups-of-best-chain-coinbase-kernels".into()).or_insert(0) += 1;
+						cur = kit.blks[b].parent;
+						walked += 1;
+					}
+				}
 				let before = (subj.obs(kit), subj.roots());
 				for (_, tx) in &probes {
 					let d = tx_desc(kit, tx);
